@@ -60,6 +60,24 @@ type cop =
 | CIndexOrInsert of coq_N list * tree
 | CSet of tree
 | CTake
+| CArrAppend of tree list
+| CObjAppend of (coq_N list * tree) list
+| CRetainNonNull
+| CSplitOff of nat
+| CResize of nat * tree
+| CExtendWithin of nat * nat
+| CDrain of nat * nat
+| CSwap of nat * nat
+| CRemoveEntry of coq_N list
+| CEntryAndModify of coq_N list * tree * tree
+| CEntryOrDefault of coq_N list
+| CEntryRemove of coq_N list
+| CEntryInsert of coq_N list * tree
+| CFillNulls of tree
+
+val non_null : tree -> bool
+
+val fill : tree -> tree -> tree
 
 val last_opt : 'a1 list -> 'a1 option
 
